@@ -55,6 +55,12 @@ def _real_seq(conn, dict_cursor: bool, ops: list[str]) -> list[str]:
                 n = int(op[1:])
                 cur.executemany("insert into t2 values (%s)", [(50 + i,) for i in range(n)])
                 out.append("u" if cur.rowcount == 1 else f"X:rowcount {cur.rowcount} after executemany whose result is the status row (1,)")
+            elif k == "p":
+                try:
+                    pdf = cur.fetch_pandas_all()
+                    out.append("p" + ",".join(str(900 if v == "Statement executed successfully." else int(v)) for (v,) in pdf.itertuples(index=False, name=None)))
+                except Exception as e:
+                    out.append("E" if "No open result set" in str(e) else f"X:{type(e).__name__}:{e}")
             elif k == "o":
                 r = cur.fetchone()
                 out.append("n" if r is None else f"r{enc_row(r)}")
@@ -146,7 +152,12 @@ def _cases(chk) -> list:
     chk.extra["exhaustive_part"] = f"all sequences x<n>·{{{','.join(FETCH)}}}^≤{maxlen} for n=0..{MAXROWS}: {len(seqs)}"
     # random long sequences with re-executes in the middle
     nrand = 1500 if chk.tier == "quick" else 40000
-    alphabet = FETCH + ["m4", "m5", "m7", "s4", "s5", "y900", "y1", "y0", "f", "g", "e1", "e2", "e3"] + [f"x{n}" for n in range(MAXROWS + 1)]
+    alphabet = FETCH + ["m4", "m5", "m7", "s4", "s5", "y900", "y1", "y0", "f", "g", "e1", "e2", "e3", "p", "p"] + [f"x{n}" for n in range(MAXROWS + 1)]
+    # fetch_pandas_all at every point of short fetch sequences
+    for n in (0, 3):
+        for L in range(0, 3):
+            for t in itertools.product(FETCH, repeat=L):
+                seqs.append([f"x{n}", *t, "p", "o", "a", "p"])
     # a failing execute / describe, or an executemany, between a result and further fetches
     for n in (0, 3):
         for mid in ("f", "g", "e1", "e3"):
@@ -277,14 +288,35 @@ def _cell(v):
 
 
 def _real_pandas(conn, sql):
+    from snowflake.connector.cursor import DictCursor
     cur = conn.cursor()
     cur.execute(sql)
-    rows = [[_cell(v) for v in r] for r in cur.fetchall()]
+    raw = cur.fetchall()
+    rows = [[_cell(v) for v in r] for r in raw]
     rowcount = cur.rowcount
+    # the same rows through other fetch shapes and through a DictCursor must be the SAME Python values (repr-exact:
+    # tzinfo, Decimal scale, int vs float)
+    exact = [[repr(v) for v in r] for r in raw]
+    shapes = {}
+    cur.execute(sql)
+    got = []
+    while (r := cur.fetchone()) is not None:
+        got.append([repr(v) for v in r])
+    shapes["fetchone-loop"] = got
+    cur.execute(sql)
+    got = []
+    while (rs := cur.fetchmany(2)):
+        got += [[repr(v) for v in r] for r in rs]
+    shapes["fetchmany(2)-loop"] = got
+    dcur = conn.cursor(DictCursor)
+    dcur.execute(sql)
+    shapes["DictCursor.fetchall"] = [[repr(v) for v in d.values()] for d in dcur.fetchall()]
+    shape_diff = next((f"{name} hands out {g} but fetchall handed out {exact}" for name, g in shapes.items() if g != exact), None)
     cur.execute(sql)
     pdf = cur.fetch_pandas_all()
     prow = [[_cell(v) for v in r] for r in pdf.itertuples(index=False, name=None)]
-    return {"rows": rows, "pandas": prow, "rowcount": rowcount, "cols": [str(c) for c in pdf.columns], "desc": [d.name for d in cur.description]}
+    return {"rows": rows, "pandas": prow, "rowcount": rowcount, "cols": [str(c) for c in pdf.columns], "desc": [d.name for d in cur.description],
+            "shape_diff": shape_diff}
 
 
 def _check_pandas(chk, sql, real):
@@ -294,6 +326,8 @@ def _check_pandas(chk, sql, real):
     bad = None
     if "exception" in real:
         bad = f"raised {real['exception']}"
+    elif real.get("shape_diff"):
+        bad = real["shape_diff"]
     elif real["pandas"] != real["rows"]:
         bad = f"fetch_pandas_all gives {real['pandas']} but the rows handed out by fetchall are {real['rows']}"
     elif real["rowcount"] != len(real["rows"]):
@@ -403,6 +437,19 @@ def _check_shape(chk, payload, real, reply):
         bad = f"rowcount {real['rowcount']} ≠ {nrows} rows"
     elif real["pandas_rows"] != want_rows:
         bad = f"fetch_pandas_all rows {real['pandas_rows']} ≠ {want_rows}"
+    elif not distinct:
+        # names repeat: a dict cannot carry every column, but every name that occurs ONCE must map to its own column's
+        # value, and the keys must be exactly the description names
+        once = [(i, k) for i, k in enumerate(norm) if norm.count(k) == 1]
+        for x, d in enumerate(real["dicts"]):
+            dd = dict((k, v) for k, v in d)
+            if set(dd) != set(norm):
+                bad = f"DictCursor row keys {sorted(dd)} ≠ description names {sorted(set(norm))}"
+                break
+            wrong = [(k, dd[k], x * 10 + i) for i, k in once if dd[k] != x * 10 + i]
+            if wrong:
+                bad = f"DictCursor row {dict(dd)}: column {wrong[0][0]!r} holds {wrong[0][1]}, its own value is {wrong[0][2]}"
+                break
     elif distinct:
         want_d = [[[k, x * 10 + i] for i, k in enumerate(norm)] for x in range(nrows)]
         got_d = [[list(p) for p in d] for d in real["dicts"]]
